@@ -92,6 +92,8 @@ class World:
 
     def ran(self, system):
         tok = system.token
+        if tok < 0:
+            raise Violation("rejected-object-ran", "an object whose registration was rejected (id in use) was executed")
         self.events.append(("run", tok))
         t = self.model.systems.timestep
         for act in self.scripts.get((tok, t), ()):
@@ -107,6 +109,18 @@ class World:
                 if mypos is not None and mypos < len(order) - 1:
                     self.nontrivial = True
                 self.unregister(target)
+            elif act["a"] == "add_dup":
+                victims = [t_ for t_ in order if t_ != tok] or order
+                if not victims:
+                    continue
+                victim = victims[int(act.get("target", 0)) % len(victims)]
+                dup = Scripted(self.all[victim].id, self.model, int(act.get("prio", 0)) % 4, self, -1)
+                try:
+                    self.model.systems.add_system(dup)
+                except KeyError:
+                    self.labels.add("duplicate-registration-rejected-mid-timestep")
+                else:
+                    raise Violation("duplicate-accepted", f"registering a second object under the id of system {victim} was accepted")
             elif act["a"] == "add":
                 prio = int(act["prio"]) % 4
                 myprio = system.priority
@@ -170,7 +184,8 @@ def run_case(case):
 def _action():
     rem = st.fixed_dictionaries({"a": st.just("remove"), "target": st.integers(0, 7)})
     add = st.fixed_dictionaries({"a": st.just("add"), "prio": st.integers(0, 3), "reuse": st.booleans()})
-    return wone_of(rem, rem, add)
+    dup = st.fixed_dictionaries({"a": st.just("add_dup"), "target": st.integers(0, 7), "prio": st.integers(0, 3)})
+    return wone_of(rem, rem, add, dup)
 
 
 def _large(tier):
